@@ -134,13 +134,19 @@ def check(prop, tier, seed):
         if not cfg.get("kani"):
             return
         mods = list(cfg["kani"])
-        for pm, ob in (cfg.get("compile_probes") or {}).items():
-            deps = [m for m in mods if m != pm]
-            ok, errs, other, plog = K.compile_probe(scratch, deps + [pm], pm)
+        # compile obligations, in dependency order: module pm (a program family) must build on top of the modules it needs
+        for pm, spec in (cfg.get("compile_probes") or {}).items():
+            ob, needs = (spec["ob"], spec.get("needs", [])) if isinstance(spec, dict) else (spec, [m for m in mods if m != pm])
+            if any(n not in mods for n in needs):
+                kres.setdefault("pre_notes", []).append("module %s not built: it needs a module whose compile obligation failed" % pm)
+                if pm in mods:
+                    mods.remove(pm)
+                continue
+            ok, errs, other, plog = K.compile_probe(scratch, needs + [pm], pm)
             if ok:
                 continue
-            # the program family does not build: is it the family itself?  (the rest must build without it)
-            ok_deps, _, _, dlog = K.compile_probe(scratch, deps, pm + "-deps")
+            # the program family does not build: is it the family itself?  (what it needs must build without it)
+            ok_deps, _, _, dlog = K.compile_probe(scratch, needs, pm + "-deps")
             errs = errs + other
             if ok_deps and errs:
                 kres.setdefault("pre_violations", []).append(dict(
@@ -316,22 +322,12 @@ def replay(path):
         cfg = PROPS[prop]
         scratch = Scratch("replay")
         mods = list(cfg["kani"])
-        for pm, ob in (cfg.get("compile_probes") or {}).items():
-            deps = [m for m in mods if m != pm]
-            ok, errs, other, plog = K.compile_probe(scratch, deps + [pm], pm)
-            if ok:
+        # modules under a compile obligation that do not build against the current /repo are left out of the replay binary
+        for pm, spec in (cfg.get("compile_probes") or {}).items():
+            needs = spec.get("needs", []) if isinstance(spec, dict) else [m for m in mods if m != pm]
+            if pm not in mods:
                 continue
-            # the program family does not build: is it the family itself?  (the rest must build without it)
-            ok_deps, _, _, dlog = K.compile_probe(scratch, deps, pm + "-deps")
-            errs = errs + other
-            if ok_deps and errs:
-                kres.setdefault("pre_violations", []).append(dict(
-                    obligation=ob, engine="rustc", harness=pm, site="kani/src/%s.rs" % pm, location=errs[0].split(": error")[0],
-                    values=None, native_replay=dict(outcome="does-not-compile", failed=[ob], panic=""), reproduced=True,
-                    verifier_output="\n".join(errs[:20]) + "\n...\n" + plog[-2500:], bound="program family in kani/src/%s.rs" % pm, kind="compile"))
-                mods.remove(pm)
-            else:
-                kres.setdefault("pre_undecided", []).append("engine K: compile probe for %s failed outside that module:\n%s" % (pm, plog[-2000:]))
+            if any(n not in mods for n in needs) or not K.compile_probe(scratch, needs + [pm], pm)[0]:
                 mods.remove(pm)
         kh_dir, hs = K.prepare(scratch, mods)
         ok, exe, blog = K.build_replay(kh_dir)
@@ -346,7 +342,9 @@ def replay(path):
         cfg = PROPS[prop]
         scratch = Scratch("replay")
         pm = d["harness"]
-        ok, errs, other, plog = K.compile_probe(scratch, [m for m in cfg["kani"] if m != pm] + [pm], pm)
+        spec = (cfg.get("compile_probes") or {}).get(pm)
+        needs = spec.get("needs", []) if isinstance(spec, dict) else [m for m in cfg["kani"] if m != pm]
+        ok, errs, other, plog = K.compile_probe(scratch, needs + [pm], pm)
         errs = errs + other
         print("native `cargo check` of the program family kani/src/%s.rs against %s: %s" % (pm, REPO, "compiles" if ok else "DOES NOT COMPILE"))
         for e in errs[:10]:
